@@ -232,10 +232,27 @@ pub fn run(tier: Tier, seed: u64) -> i32 {
             }
         }
     }
+    let slice: Vec<Case> = if tier == Tier::Thorough {
+        cases
+            .iter()
+            .step_by(5)
+            .map(|c| {
+                let mut d = Case::new(&c.name, c.prog.clone(), c.sigs.clone(), c.ov, c.init_menu.clone(), c.menu.clone(), c.max_depth);
+                d.dev_budget = 1;
+                d.continue_after_call_errors = true;
+                d.extra_known = c.extra_known.clone();
+                d.w_menu = c.w_menu.clone();
+                d
+            })
+            .collect()
+    } else {
+        vec![]
+    };
     let ncases = cases.len();
     let res = explore(cases, oracle(), true, &deadline);
     let mut st = res.stats;
     st.nontrivial = st.states;
+    validate_key(&mut st, &res.keys, slice, oracle(), &deadline);
     st.sample(|| json!({"cases": ncases, "deviation_kinds": deviations(&["Q".to_string(), "R".to_string(), "S".to_string()], &["Q".to_string(), "R".to_string(), "S".to_string()]).iter().map(|d| d.0.clone()).collect::<Vec<_>>()}));
     let meta = CheckMeta {
         id: "C13",
